@@ -138,7 +138,7 @@ class C02(PropBase):
             for removal in (True, False):
                 for i, h in enumerate(gen.exhaustive_E2(max_len=2, tmax=2)):
                     if i % step == 0:
-                        yield dict(directed=directed, removal=removal, hist=h, family='int', functional=(i % 2 == 1))
+                        yield dict(directed=directed, removal=removal, hist=h, family='int', functional=(i % 3))
 
     def n_random(self, tier):
         return 700 if tier == 'quick' else 40000
